@@ -193,6 +193,40 @@ func runC04(o *opts) (*summary, error) {
 			}, 256)
 		}
 	}
+	// every field of a valid message set to each of the special patterns (the library's own encoding of the zero
+	// time, all zeros, 0xff, 0x99, ...)
+	special := func(zero any, dir string) {
+		name := reflect.TypeOf(zero).Name()
+		l := layoutOf(name, dir)
+		som := byte(0x17)
+		if name == "EventV6_62" {
+			som = 0x19
+		}
+		for _, f := range l.Fields {
+			pats := specialPatterns(width(f.Kind))
+			panics := 0
+			first := M{"t": "none"}
+			for _, pat := range pats {
+				m := l.message(rng, som, []byte{1, 2, 3, 4}, "valid", nil)
+				copy(m[f.Off:], pat)
+				if bad := decodeAll(m, zero, dir); len(bad) > 0 {
+					panics++
+					if first["t"] == "none" {
+						first = M{"t": "panic", "entry": bad, "b": ints(m)}
+					}
+				}
+			}
+			w.put(M{"fn": "fuzz", "type": name, "dir": dir, "cls": "special-" + f.Name, "len": 64, "n": len(pats), "panics": panics, "first": first}, "fuzz-special", fmt.Sprintf("%s/special/%s", name, f.Name))
+		}
+	}
+	for _, set := range []struct {
+		dir   string
+		types []any
+	}{{"req", requestTypes}, {"rsp", responseTypes}, {"event", eventTypes}} {
+		for _, z := range set.types {
+			special(z, set.dir)
+		}
+	}
 	for _, z := range requestTypes {
 		fuzz(z, "req")
 	}
